@@ -64,10 +64,10 @@ Qed.
 (* ------------------------------------------------------------------ ok_node *)
 Lemma spec_self_le_total anc c : Forall (fun w => w_self w <= w_total w) (spec_rows anc c).
 Proof.
-  revert anc. induction c as [a t0 t1 kids IH] using call_ind'. intro anc. cbn [spec_rows].
+  revert anc. induction c as [e a t0 t1 kids IH] using call_ind'. intro anc. cbn [spec_rows].
   apply Forall_app. split.
   - rewrite Forall_forall in IH |- *. intros w Hw. apply in_concat in Hw. destruct Hw as (l & Hl & Hw).
-    apply in_map_iff in Hl. destruct Hl as (k & <- & Hk). specialize (IH k Hk (a :: anc)).
+    apply in_map_iff in Hl. destruct Hl as (k & <- & Hk). specialize (IH k Hk (e :: anc)).
     rewrite Forall_forall in IH. auto.
   - constructor; [cbn; lia|constructor].
 Qed.
@@ -190,15 +190,24 @@ Lemma inherited_frames_legacy_refuted :
               /\ n_call n = 1 /\ sum (n_total n) = 1000 /\ recs (n_total n) = 0 /\ sum (n_self n) = 1000).
 Proof. split; eexists; vm_compute; repeat split; reflexivity. Qed.
 
-(* STILL PRESENT (known finding lost-after-inherited-wrap): a LOST marker after data that starts at
-   depth > 0 wraps a duration below zero *)
+(* LOST markers (fixed: c76be09).  Before the fix fstack_account_time started its LOST loop with the slot above
+   the innermost open call: (1) every marker took 1 ns from the Self time of the innermost open call; (2) after
+   data starting at depth > 0 the stale time of that slot wrapped a duration below zero. *)
+Definition lost_1ns_case : case :=
+  mkcase 1024 [(10, 1); (20, 2)]
+    [[mkrec ENTRY 0 10 1000; mkrec ENTRY 1 20 1100; mkrec LOST 0 1 0; mkrec EXIT 1 20 1900; mkrec EXIT 0 10 2000]].
+Lemma lost_marker_legacy_refuted :
+  map (fun n => (n_name n, sum (n_total n), sum (n_self n))) (report_gen true lost_1ns_case) = [(1, 1000, 200); (2, 800, 799)]
+  /\ map (fun n => (n_name n, sum (n_total n), sum (n_self n))) (report lost_1ns_case) = [(1, 1000, 200); (2, 800, 800)].
+Proof. vm_compute. split; reflexivity. Qed.
 Definition lost_case : case :=
   mkcase 1024 [(10, 1); (20, 2); (30, 3)]
     [[mkrec LOST 0 1 0; mkrec EXIT 2 30 1300; mkrec EXIT 1 20 1400; mkrec ENTRY 1 20 1500; mkrec LOST 0 1 0;
       mkrec EXIT 0 10 1900]].
-Lemma lost_after_inherited_refuted :
-  exists n, find_node (report lost_case) 2 = Some n /\ smax (n_total n) = M64 - 1499.
-Proof. eexists. vm_compute. split; reflexivity. Qed.
+Lemma lost_after_inherited_legacy_refuted :
+  (exists n, find_node (report_gen true lost_case) 2 = Some n /\ smax (n_total n) = M64 - 1499)
+  /\ (exists n, find_node (report lost_case) 2 = Some n /\ smax (n_total n) = 1).
+Proof. split; eexists; vm_compute; split; reflexivity. Qed.
 
 (* report --task before the fix measured open calls until the last EXIT: 200 ns instead of 8000 ns; no EXIT,
    no line.  Now a task's line adds up to the Self times of its rows. *)
